@@ -112,6 +112,11 @@ def judge(rep, wd, trace_path, invariants, label, chunk=4000, module="CoreObs"):
             verdicts.setdefault(t, []).append((name, i))
         for m in vlib.re.finditer(r'<<"HAZARD", "(\w+)", (-?\d+), (-?\d+), (-?\d+)>>', r.out):
             hazards.setdefault(int(m.group(3)), set()).add(m.group(1))
+        for m in vlib.re.finditer(r'<<"NOTE", "(\w+)", (-?\d+), (-?\d+), (-?\d+)>>', r.out):      # conformance notes, never verdicts
+            d = rep.cov.setdefault("conformance_notes", {})
+            d[m.group(1)] = d.get(m.group(1), 0) + 1
+            if d[m.group(1)] <= 2:
+                rep.notes.append("DIVERGENCE %s: trace %s step %s" % (m.group(1), m.group(3), m.group(4)))
     events = {t: [json.loads(x) for x in lines] for t, lines in per.items()}
     return events, verdicts, hazards
 
